@@ -68,12 +68,21 @@ def _loop_spec(eng, fr, node):
     o = loop_ordinal(func, node)
     top = eng.cur_contract
     if top is not None and eng.cur_key == func.key and top.key == func.key:
+        from . import follow
+
+        o = follow.carrier_ordinal(eng, func, o)  # the ordinal the loop had in the baseline text when loops LEFT the carrier (pyvc/follow.py)
         return _pick_spec(top.loops, o, node), o  # the contract being verified (several contracts of one function may be registered)
     c = eng.registry.get(func.key)
     if c is not None and (eng.cur_key == func.key):
         return _pick_spec(c.loops, o, node), o
     if top is not None and func.key in top.inlined_loops:
         return _pick_spec(top.inlined_loops[func.key], o, node), o
+    if top is not None and getattr(func.node, "_pyvc_follow", None):
+        from . import follow
+
+        r = follow.helper_spec(eng, fr, node)  # a loop contract of the carrier follows its loop into a contract-less helper
+        if r is not None:
+            return r[0], (o if r[1] is None else r[1])
     return None, o
 
 
@@ -279,7 +288,7 @@ def havoc_loop_state(eng, nodes, fr, spec, extra_names=()):
 
             v = extra(eng, fr) if len(_insp.signature(extra).parameters) >= 2 else extra(eng)
         else:
-            v = eng.ev(ast.parse(extra, mode="eval").body, fr)
+            v = eng.ev(ast.parse(extra, mode="eval").body, fr if getattr(fr, "follow_outer", None) is None else Frame(vars=_visible(fr), globs=fr.globs))
         havoc_value(eng, v, done)
     for nm in sorted(names):
         f = fr
@@ -300,6 +309,9 @@ def havoc_loop_state(eng, nodes, fr, spec, extra_names=()):
             if any(isinstance(x, ast.Name) and isinstance(x.ctx, ast.Store) and x.id == nm for x in _walk_no_defs(nodes)):
                 fr.store(nm, rb(eng, cur))
                 continue
+        if (spec or {}).get("_followed") and isinstance(cur, Obj) and any(
+                isinstance(x, ast.Name) and isinstance(x.ctx, ast.Store) and x.id == nm for x in _walk_no_defs(nodes)):
+            raise Unsupported(f"followed loop rebinds the object variable {nm}: the loop contract of {spec.get('_fn')} has no `rebind` rule for it")
         if isinstance(cur, Sym):
             fr.store(nm, fresh(k or cur.kind, nm))
         elif kind_of(cur) is not None:
@@ -351,6 +363,9 @@ def at_exit(eng, spec, fr, old_vars, entry_vars, label_prefix):
 
 def _visible(fr):
     d = {}
+    outer = getattr(fr, "follow_outer", None)
+    if outer is not None:  # a followed helper (pyvc/follow.py): clauses also see the variables of the frame that called it
+        d.update(_visible(outer))
     chain = []
     f = fr
     while f is not None:
@@ -383,7 +398,7 @@ def exec_while(eng, s, fr):
             except BreakSig:
                 return
         raise Unsupported("unroll bound exceeded")
-    pre = f"{_fn_label(eng, fr)}/loop{o}"
+    pre = f"{spec.get('_fn') or _fn_label(eng, fr)}/loop{o}"
     if _yield_sink(fr, s.body) is not None and not _yield_described(spec):
         raise Unsupported(f"while loop #{o} in {_fn_label(eng, fr)} yields inside an invariant-cut loop whose contract does not describe `__yield__`")
     old_vars = eng.old_vars_of(fr)
@@ -561,7 +576,7 @@ def exec_for(eng, s, fr):
         n, getter = eng.models.as_sequence(eng, seqv)
     finally:
         seq_effects, eng.seq_effects = eng.seq_effects, None  # None: the consumer does not model laziness (lazy sequences refuse)
-    pre = f"{_fn_label(eng, fr)}/loop{o}"
+    pre = f"{spec.get('_fn') or _fn_label(eng, fr)}/loop{o}"
     kname = spec.get("index", f"_k{o}")
     old_vars = eng.old_vars_of(fr)
     fr.vars[kname] = 0
